@@ -15,6 +15,7 @@ import (
 
 // SpecEnv is the context in which a contract expression is evaluated.
 type SpecEnv struct {
+	noRename bool
 	paramsFirst bool // post-conditions: parameter names mean the entry values even when the body reassigns them
 	params  map[string]Val // parameters of the function under contract (entry values); a loop-carried variable of the same name shadows them
 	vars    map[string]Val
@@ -216,6 +217,16 @@ func (e *Enc) specIdent(name string, env *SpecEnv) Val {
 	if g, ok := e.w.ghostDecls[name]; ok {
 		_ = g
 		return e.ghost(env.st, name)
+	}
+	// a local that was renamed since the contract was written: the snapshot of the function's locals
+	// (verif_contracts_locals.go) maps the old name to the variable now declared at the same position
+	if env.f != nil && !env.noRename {
+		if alt := e.w.renamedLocal(env.f.fn, name); alt != "" && alt != name {
+			ne := *env
+			ne.noRename = true
+			e.renamesUsed[e.w.funcName(env.f.fn)+": "+name+" -> "+alt] = true
+			return e.specIdent(alt, &ne)
+		}
 	}
 	specFail("unknown identifier %q", name)
 	panic("unreachable")
@@ -519,10 +530,49 @@ func (e *Enc) specCall(n *ast.CallExpr, env *SpecEnv) Val {
 			}
 			for k, v := range env.oldVars {
 				ne.vars[k] = v
+				if env.f != nil {
+					for _, on := range e.w.snapshotNamesOf(env.f.fn, k) {
+						ne.vars[on] = v // the contract may still call the variable by its old name
+					}
+				}
 			}
 		}
 		ne.old, ne.oldVars = nil, nil
 		return e.evalSpec(n.Args[0], &ne)
+	case "callarg":
+		// callarg("pkg.F", k): the k-th argument of the single static call to F in this function's body
+		lit, ok := n.Args[0].(*ast.BasicLit)
+		if !ok || env.f == nil {
+			specFail("callarg(\"f\", k) needs a function body")
+		}
+		cname, _ := strconv.Unquote(lit.Value)
+		var k int
+		if kl, ok := n.Args[1].(*ast.BasicLit); ok {
+			fmt.Sscanf(kl.Value, "%d", &k)
+		}
+		var found *ssa.Call
+		cnt := 0
+		for _, b := range env.f.fn.Blocks {
+			for _, ins := range b.Instrs {
+				if c, ok := ins.(*ssa.Call); ok {
+					if sc := c.Common().StaticCallee(); sc != nil && (sc.String() == cname || e.w.funcName(sc) == cname) {
+						found = c
+						cnt++
+					}
+				}
+			}
+		}
+		if cnt != 1 || k >= len(found.Call.Args) {
+			specFail("callarg(%q, %d): %d static calls in the body (need exactly one with that many arguments)", cname, k, cnt)
+		}
+		a := found.Call.Args[k]
+		if c, ok := a.(*ssa.Const); ok {
+			return e.constVal(c)
+		}
+		if v, ok := env.f.vals[a]; ok {
+			return v
+		}
+		specFail("callarg(%q, %d): the argument has no value on this path", cname, k)
 	case "callres":
 		// callres("f", k): k-th result of the single static call to f in this function's body
 		lit, ok := n.Args[0].(*ast.BasicLit)
@@ -601,6 +651,9 @@ func (e *Enc) specCall(n *ast.CallExpr, env *SpecEnv) Val {
 				}
 				for k, v := range hv {
 					ne.vars[k] = v
+					for _, on := range e.w.snapshotNamesOf(env.f.fn, k) {
+						ne.vars[on] = v
+					}
 				}
 				ne.old, ne.oldVars = nil, nil
 				return e.evalSpec(n.Args[1], &ne)
